@@ -52,9 +52,9 @@ THEOREMS = {
     "C14": ("TrVerif.Props.C14", ["Tr.C14_interleavings", "Tr.C14_progress", "Tr.C14_structure"]),
     "C15": ("TrVerif.Props.C15All", ["Tr.Load.C15_refresh_all_record_level", "Tr.Load.C15_refresh_schedules_record_level", "Tr.Load.C16_roundtrip", "Tr.C15_answers", "Tr.C15_all", "Tr.C15_schedules", "Tr.C15_old_state_irrelevant", "Tr.C15_status", "Tr.C15_structure", "Tr.C15_order"]),
     "C17": ("TrVerif.Props.C17All", ["Tr.Load.C17_no_ub", "Tr.Load.C17_conn_forward", "Tr.Load.C17_foot_nonneg", "Tr.Load.C17_missing_not_ready", "Tr.Load.C17_ready_all_nonempty",
-                                      "Tr.Load.C17_guard_needed", "Tr.Load.C17_guard_rejects", "Tr.Load.C17_validation_source", "Tr.Load.connLoop_val", "Tr.C17_ready_iff", "Tr.C17_names_empty", "Tr.C17_missing_file_not_ready", "Tr.C17_every_request_data_error", "Tr.C17_ready_serves", "Tr.C17_codes", "Tr.C17_tables_cover", "Tr.C17_structure"]),
+                                      "Tr.Load.C17_guard_needed", "Tr.Load.C17_guard_rejects", "Tr.Load.C17_validation_source", "Tr.Load.C17_insert_source", "Tr.Load.connLoop_val", "Tr.C17_ready_iff", "Tr.C17_names_empty", "Tr.C17_missing_file_not_ready", "Tr.C17_every_request_data_error", "Tr.C17_ready_serves", "Tr.C17_codes", "Tr.C17_tables_cover", "Tr.C17_structure"]),
     "C18": ("TrVerif.Props.C18All", ["Tr.Par.C18_defect_present", "Tr.Par.C18_query_error_documented", "Tr.Par.C18_not_ready_data_error", "Tr.Par.C18_calc_meets_contract",
-                                      "Tr.Par.createCommon_spec", "Tr.Par.C18_stoi_examples", "Tr.Par.C18_params_examples", "Tr.C18_index_safe", "Tr.C18_forward_guard", "Tr.C18_codes_documented", "Tr.C18_codes_specific", "Tr.C18_defaults", "Tr.C18_update_names"]),
+                                      "Tr.Par.createCommon_spec", "Tr.Par.C18_unique_keys_values", "Tr.Par.C18_default_values", "Tr.Par.C18_params_source", "Tr.Par.C18_stoi_examples", "Tr.Par.C18_params_examples", "Tr.C18_index_safe", "Tr.C18_forward_guard", "Tr.C18_codes_documented", "Tr.C18_codes_specific", "Tr.C18_defaults", "Tr.C18_update_names"]),
     "C19": ("TrVerif.Props.C19", ["Tr.C19_summary", "Tr.C19_handlers_mirror"]),
     "C20": ("TrVerif.Props.C20", ["Tr.C20_recovery", "Tr.C20_faulted_answer", "Tr.C20_fault_lookup", "Tr.C20_classes", "Tr.C20_structure"]),
 }
@@ -236,7 +236,9 @@ _reg("C18", "PROOF (partial: parameter handling and index safety proved, transpo
      "iterates a hash multimap), every coordinate parser and every scenario table: Tr.Par.C18_defect_present - a 400 names a defect actually present in the request (missing / malformed / non-numeric "
      "parameter, unknown or empty scenario; origin / destination codes only on route and summary, place codes only on accessibility); C18_query_error_documented - its errorCode is a documented one; "
      "C18_not_ready_data_error - on data that is not READY every request is answered data_error with the status's code; C18_calc_meets_contract - when the calculation runs, the scenario exists and has "
-     "services, the time of trip is a non-negative integer written in the request, every limit is normalised (waiting >= 0, maxima > 0 with MAX_INT = no limit, cap > 0 or disabled); C18_params_examples "
+     "services, the time of trip is a non-negative integer written in the request, every limit is normalised (waiting >= 0, maxima > 0 with MAX_INT = no limit, cap > 0 or disabled); C18_unique_keys_values - in a request without a duplicated key every numeric parameter of the calculation is the documented default "
+     "when omitted and the normalised value of the request when given (non-positive = no limit); C18_params_source - the parameter names, the numeric ones, the order of the checks and the shape of "
+     "getIntegerValue are re-read from the three factories on every run; C18_params_examples "
      "(defaults, zero limit, four error codes; non-vacuity). Tr.C18_index_safe / C18_forward_guard - both hour look-ups are in range for every integer time and every connection list; documented codes, "
      "defaults and /updateCache names regenerated from the source. Tie: every generated request without a duplicated key (7 600 per quick run, all ten error codes and both data_error codes) is "
      "classified by `trmodel --classify` and compared with the real server's (HTTP status, status, errorCode, echoed time). NOT proved: std::stod / boost uuid parsing (parameters of the model), the "
